@@ -170,6 +170,11 @@ def families(rng):
         # and printers that do not)
         F['trailing-on-%s' % cname] = (lambda n, wrap=wrap: nest(n, lambda v, i: tcm(wrap(v, i), 'tail %d' % i)))
         F['comment-on-%s' % cname] = (lambda n, wrap=wrap: nest(n, lambda v, i: c(wrap(v, i), 'note %d' % i)))
+    # several comment wrappers stacked on ONE value (the innermost of each kind wins)
+    F['stacked-trailing-comments'] = lambda n: nest(n, lambda v, i: tcm(v, 't%d' % i), leaf=[1, 2])
+    F['stacked-comments'] = lambda n: nest(n, lambda v, i: c(v, 'c%d' % i), leaf=[1, 2])
+    F['stacked-alternating-wrappers'] = lambda n: nest(n, lambda v, i: (tcm if i % 2 else c)(v, 'w%d' % i), leaf={'k': [1]})
+    F['stacked-wrappers-in-list'] = lambda n: [nest(n, lambda v, i: (c if i % 3 else tcm)(v, 'w%d' % i), leaf=(1, 2)), 3]
     # seeded random wrapper recipes
     wrappers = [lambda v, i: [v], lambda v, i: {'k': v}, lambda v, i: (v, i), lambda v, i: H(v),
                 lambda v, i: [c(v, 'c')], lambda v, i: {'k': c(v, 'c')}, lambda v, i: {'a': 1, 'b': v, 'c': 3},
